@@ -57,6 +57,7 @@ class DC:
         self.reply_pad_extra = 0  # extra 16-byte blocks of auth padding (still conforming)
         self.reply_pad: t.Optional[int] = None  # exact auth padding to use (None = minimal 16-byte alignment); may misalign the trailer
         self.reply_pad_fill = 0  # value of the auth padding octets (a receiver must not look at them)
+        self.reply_reserved = 0  # auth_reserved octet of the reply's security trailer (ignored on receipt, MS-RPCE 2.2.2.11)
         self.reply_alloc_hint = "padded"  # alloc_hint convention of sealed replies: padded | unpadded | zero | 16 | max (it is only a hint)
         self.envelope_override: t.Optional[t.Callable[[gkdi.Envelope], gkdi.Envelope]] = None
         self.server_tokens: t.List[bytes] = [b"S-TOKEN-1", b"S-TOKEN-2", b"S-TOKEN-3", b"S-TOKEN-4"]
@@ -331,7 +332,7 @@ class Conn:
         total = 24 + len(body) + 8 + sig_len
         hint = {"padded": len(body), "unpadded": len(reply_stub), "zero": 0, "16": 16, "max": 2**32 - 1}[self.dc.reply_alloc_hint]
         hdr = rpc.header(rpc.RESPONSE, 3, total, sig_len, d["call_id"]) + struct.pack("<IHBB", hint, d["ctx_id"], 0, 0)
-        trailer = struct.pack("<BBBBI", self.auth_type, self.auth_level, pad, 0, 0)
+        trailer = struct.pack("<BBBBI", self.auth_type, self.auth_level, pad, self.dc.reply_reserved, 0)
         ty = siov.BufferType.sign_only if self.sign_header else siov.BufferType.data_readonly
         res = self.ctx.wrap_iov([(ty, hdr), body, (ty, trailer), siov.BufferType.header], encrypt=True, qop=None)
         sealed = hdr + (res.buffers[1].data or b"") + trailer + (res.buffers[3].data or b"")
